@@ -415,6 +415,11 @@ fn run_inner(sc: &J) -> Result<Option<String>, String> {
             item!("{\"type\":\"array\",\"items\":\"string\"}", vec!["alpha", "beta", "gamma", "delta", "epsilon", "zeta", "eta", "theta", "iota", "kappa", "lambda", "mu", "nu", "xi", "omicron", "pi", "rho", "sigma", "tau", "upsilon"], strs(&["alpha", "beta", "gamma", "delta", "epsilon", "zeta", "eta", "theta", "iota", "kappa", "lambda", "mu", "nu", "xi", "omicron", "pi", "rho", "sigma", "tau", "upsilon"]));
             item!("{\"type\":\"array\",\"items\":\"long\"}", vec![1i64, -70000, 2147483647, 300, 64, -65], Value::Array([1i64, -70000, 2147483647, 300, 64, -65].iter().map(|x| Value::Long(*x)).collect()));
             item!("{\"type\":\"array\",\"items\":\"null\"}", vec![(), (), ()], Value::Array(vec![Value::Null, Value::Null, Value::Null]));
+            // blocks of 65..127 and of more than 128 items (one- and two-byte block counts)
+            for n in [64usize, 65, 100, 127, 128, 300] {
+                item!("{\"type\":\"array\",\"items\":\"int\"}", (0..n as i32).collect::<Vec<i32>>(), Value::Array((0..n as i32).map(Value::Int).collect()));
+            }
+            item!("{\"type\":\"map\",\"values\":\"int\"}", (0..70).map(|i| (format!("k{i:03}"), i)).collect::<BTreeMap<String, i32>>(), Value::Map((0..70).map(|i| (format!("k{i:03}"), Value::Int(i))).collect()));
             item!("{\"type\":\"map\",\"values\":\"long\"}", [("a", 1i64), ("bb", 300), ("ccc", -70000), ("dddd", 5), ("eeeee", 6), ("ffffff", 7), ("g", 8), ("hh", 9)].into_iter().map(|(k, v)| (k.to_string(), v)).collect::<BTreeMap<String, i64>>(),
                 Value::Map([("a", 1i64), ("bb", 300), ("ccc", -70000), ("dddd", 5), ("eeeee", 6), ("ffffff", 7), ("g", 8), ("hh", 9)].into_iter().map(|(k, v)| (k.to_string(), Value::Long(v))).collect()));
             item!("{\"type\":\"map\",\"values\":\"string\"}", (0..12).map(|i| (format!("key{i:02}"), format!("value-{i}"))).collect::<BTreeMap<String, String>>(),
@@ -429,6 +434,10 @@ fn run_inner(sc: &J) -> Result<Option<String>, String> {
                 Q2 { ww: 42, xx: "hi".into(), yy: "there".into(), zz: 300 },
                 rec(vec![("zz", Value::Long(300)), ("yy", Value::String("there".into())), ("xx", Value::String("hi".into())), ("ww", Value::Long(42))]));
             item!("[\"null\",\"double\"]", Some(2.25f64), Value::Union(1, Box::new(Value::Double(2.25))));
+            // a map value (serde `serialize_map`, as produced by `#[serde(flatten)]` and by HashMap/BTreeMap) under a RECORD schema
+            item!("{\"type\":\"record\",\"name\":\"m\",\"fields\":[{\"name\":\"a\",\"type\":\"int\"},{\"name\":\"b\",\"type\":\"int\"},{\"name\":\"c\",\"type\":\"int\"}]}",
+                [("a", 1i32), ("b", 300), ("c", -70000)].into_iter().map(|(k, v)| (k.to_string(), v)).collect::<BTreeMap<String, i32>>(),
+                rec(vec![("a", Value::Int(1)), ("b", Value::Int(300)), ("c", Value::Int(-70000))]));
             let _ = ci;
             Ok(None)
         }
@@ -451,6 +460,15 @@ fn run_inner(sc: &J) -> Result<Option<String>, String> {
             corpus.push(("{\"type\":\"record\",\"name\":\"o\",\"fields\":[{\"name\":\"id\",\"type\":\"long\"},{\"name\":\"name\",\"type\":\"string\"},{\"name\":\"note\",\"type\":[\"null\",\"string\"]},{\"name\":\"flag\",\"type\":[\"null\",\"boolean\"]}]}".into(),
                 Value::Record(vec![("id".into(), Value::Long(7)), ("name".into(), Value::String("abc".into())), ("note".into(), Value::Union(1, Box::new(Value::String("n".into())))), ("flag".into(), Value::Union(1, Box::new(Value::Boolean(true))))])));
             corpus.push(("[\"null\",\"long\"]".into(), Value::Union(1, Box::new(Value::Long(300)))));
+            // fixed-width payloads at the END of a datum (nothing after them can fail and hide a short read)
+            corpus.push(("{\"type\":\"fixed\",\"name\":\"f4\",\"size\":4}".into(), Value::Fixed(4, vec![0xDE, 0xAD, 0xBE, 0xEF])));
+            corpus.push(("{\"type\":\"record\",\"name\":\"rf\",\"fields\":[{\"name\":\"id\",\"type\":\"long\"},{\"name\":\"digest\",\"type\":{\"type\":\"fixed\",\"name\":\"f4\",\"size\":4}}]}".into(),
+                Value::Record(vec![("id".into(), Value::Long(7)), ("digest".into(), Value::Fixed(4, vec![0xDE, 0xAD, 0xBE, 0xEF]))])));
+            corpus.push(("{\"type\":\"fixed\",\"name\":\"dd\",\"size\":12,\"logicalType\":\"duration\"}".into(), Value::Duration(apache_avro::Duration::new(apache_avro::Months::new(1), apache_avro::Days::new(2), apache_avro::Millis::new(3)))));
+            corpus.push(("{\"type\":\"fixed\",\"name\":\"df\",\"size\":6,\"logicalType\":\"decimal\",\"precision\":10,\"scale\":2}".into(), Value::Decimal(apache_avro::Decimal::from(vec![0xFF, 0xFF, 0xFF, 0x80, 0x00, 0x01]))));
+            corpus.push(("{\"type\":\"fixed\",\"name\":\"uf\",\"size\":16,\"logicalType\":\"uuid\"}".into(), Value::Uuid(apache_avro::Uuid::from_u128(0x0123456789abcdef0123456789abcdef))));
+            corpus.push(("\"float\"".into(), Value::Float(1.5))); corpus.push(("\"double\"".into(), Value::Double(-2.25)));
+            corpus.push(("{\"type\":\"array\",\"items\":{\"type\":\"fixed\",\"name\":\"f3\",\"size\":3}}".into(), Value::Array(vec![Value::Fixed(3, vec![1, 2, 3]), Value::Fixed(3, vec![4, 5, 6])])));
             corpus.push(("{\"type\":\"map\",\"values\":[\"null\",\"long\"]}".into(), Value::Map([("k".to_string(), Value::Union(0, Box::new(Value::Null)))].into_iter().collect())));
             for (st, v) in corpus {
                 let schema = Schema::parse_str(&st).map_err(|e| e.to_string())?;
@@ -464,6 +482,7 @@ fn run_inner(sc: &J) -> Result<Option<String>, String> {
                     let mut rd = &full[..c];
                     if let Ok(got) = apache_avro::from_avro_datum(&schema, &mut rd, None) {
                         let consumed = c - rd.len();
+                        if let Some(m) = value_ill_formed(&got) { return Ok(Some(format!("schema {st}: the encoding ({} bytes) cut at {c} decodes Ok to an ill-formed value: {m}", full.len()))); }
                         let re = apache_avro::to_avro_datum(&schema, got.clone()).unwrap_or_default();
                         if got == v || re[..] != full[..consumed] {
                             return Ok(Some(format!("schema {st}: the encoding ({} bytes) cut at {c} decodes Ok to a value that re-encodes to {} bytes (consumed {consumed})", full.len(), re.len())));
@@ -876,11 +895,16 @@ fn run_inner(sc: &J) -> Result<Option<String>, String> {
                     let mut rd = &inp[..];
                     if let Ok(v) = dr.read_value(&mut rd) {
                         if !v.validate(&schema) { return Ok(Some(format!("schema {st}: input {:02x?} decodes to {v:?} which does not validate", inp))); }
+                        if let Some(m) = value_ill_formed(&v) { return Ok(Some(format!("schema {st}: input {:02x?} decodes to an ill-formed value: {m}", inp))); }
                         // C06: "re-encoding it succeeds, and decoding the re-encoded bytes returns the same value"
                         let consumed = inp.len() - rd.len();
                         match apache_avro::to_avro_datum(&schema, v.clone()) {
                             Err(e) => return Ok(Some(format!("schema {st}: input {:02x?} decodes to {v:?} ({consumed} bytes) but re-encoding that value fails: {e}", inp))),
                             Ok(again) => {
+                                // fixed-width kinds have exactly one encoding: the value must re-encode to the bytes consumed (a short
+                                // payload accepted as a whole value shows up here)
+                                let unique = st.contains("\"fixed\"") || st == "\"float\"" || st == "\"double\"" || st == "\"boolean\"";
+                                if unique && again[..] != inp[..consumed] { return Ok(Some(format!("schema {st}: input {:02x?} decodes to {v:?} consuming {consumed} byte(s), but that value's encoding is {:02x?}", inp, again))); }
                                 let mut rd2 = &again[..];
                                 match dr.read_value(&mut rd2) {
                                     // values compared through their encodings (floats bit for bit: NaN != NaN under PartialEq)
@@ -1053,6 +1077,38 @@ fn run_inner(sc: &J) -> Result<Option<String>, String> {
             }
             Ok(None)
         }
+        // C01/C02: decimals against an independent reference — the bytes of a decimal are the big-endian two's-complement form of
+        // the unscaled integer (Avro spec), sign-extended to the fixed width; every value at and around each byte-width boundary,
+        // written at its minimal width and wider, under bytes- and fixed-backed schemas, and through Decimal's byte accessors
+        "decimal_reference" => {
+            let mut vals: Vec<i64> = vec![0, 1, -1, 2, -2];
+            for k in [7u32, 8, 15, 16, 23, 24, 31, 32, 39, 47, 55, 62] { let p = 1i64 << k; for d in [-2i64, -1, 0, 1, 2] { vals.push(p + d); vals.push(-p + d); } }
+            let minimal = |v: i64| -> Vec<u8> { let b = v.to_be_bytes(); let mut i = 0; while i < 7 && ((b[i] == 0x00 && b[i + 1] < 0x80) || (b[i] == 0xFF && b[i + 1] >= 0x80)) { i += 1; } b[i..].to_vec() };
+            for v in vals {
+                let min = minimal(v);
+                for width in [min.len(), min.len() + 1, 8, 9, 12] {
+                    if width < min.len() { continue; }
+                    let mut want = vec![if v < 0 { 0xFFu8 } else { 0x00 }; width - min.len()]; want.extend_from_slice(&min);
+                    // fixed-backed
+                    let fx = Schema::parse_str(&format!("{{\"type\":\"fixed\",\"name\":\"d\",\"size\":{width},\"logicalType\":\"decimal\",\"precision\":{},\"scale\":0}}", (width * 2).max(1))).map_err(|e| e.to_string())?;
+                    let dec = apache_avro::Decimal::from(&min);
+                    match apache_avro::to_avro_datum(&fx, Value::Decimal(dec.clone())) {
+                        Ok(bytes) => if bytes != want { return Ok(Some(format!("unscaled {v} (minimal form {:02x?}) under fixed({width}) decimal is written as {:02x?}; two's complement sign-extended to {width} bytes is {:02x?}", min, bytes, want))); },
+                        Err(e) => return Ok(Some(format!("unscaled {v} under fixed({width}) decimal: {e}"))),
+                    }
+                    // a Decimal built from the sign-padded form exposes exactly those bytes, and writes them under a bytes-backed schema
+                    let padded = apache_avro::Decimal::from(&want);
+                    match <Vec<u8>>::try_from(&padded) { Ok(b) if b == want => {}, other => return Ok(Some(format!("Decimal::from({:02x?}) exposes {:02x?}", want, other.map_err(|e| e.to_string())))) }
+                    let by = Schema::parse_str(&format!("{{\"type\":\"bytes\",\"logicalType\":\"decimal\",\"precision\":{},\"scale\":0}}", (width * 3).max(1))).map_err(|e| e.to_string())?;
+                    match apache_avro::to_avro_datum(&by, Value::Decimal(padded.clone())) {
+                        Ok(bytes) => { let mut w2 = crate::refimpl::long(width as i64); w2.extend_from_slice(&want); if bytes != w2 { return Ok(Some(format!("Decimal::from({:02x?}) under bytes decimal is written as {:02x?}", want, bytes))); }
+                            match apache_avro::from_avro_datum(&by, &mut &bytes[..], None) { Ok(Value::Decimal(back)) if back == padded => {}, other => return Ok(Some(format!("bytes decimal {:02x?} reads back as {other:?}", want))) } },
+                        Err(e) => return Ok(Some(format!("Decimal::from({:02x?}) under bytes decimal: {e}", want))),
+                    }
+                }
+            }
+            Ok(None)
+        }
         // C01/C02: big-decimal values with scales at and beyond the i32 range round-trip (compared as (unscaled, scale))
         "bigdecimal_scales" => {
             use std::str::FromStr;
@@ -1095,7 +1151,7 @@ fn _u(_: &Value) {}
 fn matrix_item<T: serde::Serialize>(st: &str, jv: &T, ref_value: Value) -> Result<Option<String>, String> {
     let schema = Schema::parse_str(st).map_err(|e| e.to_string())?;
     // path 0 = generic (Value), 1.. = serde with a target block size
-    for (pi, tbs) in [(0usize, None), (1, None), (2, Some(0usize)), (3, Some(32usize))] {
+    for (pi, tbs) in [(0usize, None), (1, None), (2, Some(0usize)), (3, Some(32usize)), (4, Some(400usize)), (5, Some(65536usize))] {
         let w = apache_avro::writer::datum::GenericDatumWriter::builder(&schema).maybe_target_block_size(tbs).build().map_err(|e| e.to_string())?;
         let mut good = Vec::new();
         let n_good = if pi == 0 { w.write_value_ref(&mut good, &ref_value) } else { w.write_ser(&mut good, jv) }.map_err(|e| format!("{st}: {e}"))?;
@@ -1156,6 +1212,18 @@ fn validate_write_check(schema: &Schema, value: &Value) -> Result<Option<String>
             }
             Ok(None)
         }
+
+/// structural well-formedness of a decoded value: a fixed carries exactly as many bytes as it says
+fn value_ill_formed(v: &Value) -> Option<String> {
+    match v {
+        Value::Fixed(n, b) => if *n != b.len() { Some(format!("Fixed({n}, ..) holds {} byte(s)", b.len())) } else { None },
+        Value::Union(_, b) => value_ill_formed(b),
+        Value::Array(items) => items.iter().find_map(value_ill_formed),
+        Value::Map(m) => m.values().find_map(value_ill_formed),
+        Value::Record(fs) => fs.iter().find_map(|(_, x)| value_ill_formed(x)),
+        _ => None,
+    }
+}
 
 pub fn parse_codec(name: &str) -> apache_avro::Codec {
     match name {
